@@ -1,0 +1,126 @@
+//go:build verif
+
+package dagordering
+
+// Machine-checked contracts for /verif (read as text by the VC generator; no code).
+//
+// Ghost state:
+//   gConn[id]      : the event with this ID is connected (what the Exists/Get callbacks report); Process only adds
+//   gProcessed[w]  : the pushed copy (wrapper) w was handed to processCompleteEvent (Check/Process)
+//   gRelCnt[w]     : how many times the Released callback was called for wrapper w
+//@ ghost gConn[hash.Event] bool
+//@ ghost gProcessed[*event] bool
+//@ ghost gRelCnt[*event] int
+//@
+//@ funcfield Callback.Exists
+//@   params id
+//@   ensures result == gConn[id]
+//@ funcfield Callback.Get
+//@   params id
+//@   ensures (result != nil) == gConn[id]
+//@ funcfield Callback.Check
+//@   params e, parents
+//@ // Process is only called on an event all of whose parents are connected
+//@ funcfield Callback.Process
+//@   params e
+//@   requires e != nil && forall(i, 0, len(e.Parents()), gConn[e.Parents()[i]])
+//@   modifies gConn[*]
+//@   ensures  forall(h hash.Event, old(gConn[h]) ==> gConn[h])
+//@ funcfield Callback.Released
+//@   params e, peer, err
+//@
+//@ // contents of the buffer: the abstract map of the LRU cache
+//@ spec inbuf(buf *EventsBuffer, k interface{}) bool = has(lruMap[buf.incompletes.lru], k)
+//@ spec bufval(buf *EventsBuffer, k interface{}) interface{} = lruMap[buf.incompletes.lru][k]
+//@ // well-formed wrapper
+//@ spec wok(w *event) bool = w != nil && w.event != nil
+//@ // buffer invariant: callbacks present; every buffered value is a well-formed wrapper;
+//@ // a wrapper that was processed has been reported released; Released was called at most once per wrapper, and only for released ones
+//@ inv EventsBuffer bufinv(buf): buf != nil && buf.incompletes != nil && buf.incompletes.lru != nil && buf.callback.Process != nil && buf.callback.Get != nil && buf.callback.Exists != nil &&
+//@   forall(k interface{}, inbuf(buf, k) ==> typeis(bufval(buf, k), "*event") && wok(unbox(bufval(buf, k), "*event"))) &&
+//@   forall(w *event, gProcessed[w] ==> w.released) &&
+//@   forall(w *event, 0 <= gRelCnt[w] && gRelCnt[w] <= 1 && (gRelCnt[w] == 1 ==> w.released))
+//@
+//@ func (*EventsBuffer).dropEvent
+//@   requires e != nil
+//@   modifies e.err
+//@   ensures  e.err == ite(old(e.err) == nil, err, old(e.err))
+//@
+//@ // releaseEvent reports the wrapper released exactly when it was not yet released
+//@ func (*EventsBuffer).releaseEvent
+//@   requires buf != nil && e != nil
+//@   modifies e.released, gRelCnt[e]
+//@   at call dagordering.Callback.Released ghost gRelCnt[e] = gRelCnt[e] + 1 before
+//@   ensures  e.released && gRelCnt[e] == old(gRelCnt[e]) + ite(!old(e.released) && buf.callback.Released != nil, 1, 0)
+//@
+//@ func (*EventsBuffer).completeEventParents
+//@   requires buf != nil && buf.callback.Get != nil && wok(e)
+//@   ensures  result != nil ==> len(result) == len(e.event.Parents()) && forall(i, 0, len(result), gConn[e.event.Parents()[i]])
+//@   ensures  isnil(result) ==> exists(i, 0, len(e.event.Parents()), !gConn[e.event.Parents()[i]])
+//@   loop 1 modifies parents[*]
+//@   loop 1 invariant 0 <= _k && _k <= len(_range) && len(parents) == len(e.event.Parents()) && !isnil(parents) && forall(i, 0, _k, gConn[e.event.Parents()[i]])
+//@
+//@ // processCompleteEvent: the only place where Check/Process run; never for a released or already processed wrapper
+//@ func (*EventsBuffer).processCompleteEvent
+//@   requires buf != nil && buf.callback.Process != nil && wok(e) && !e.released && !gProcessed[e]
+//@   requires forall(i, 0, len(e.event.Parents()), gConn[e.event.Parents()[i]])
+//@   modifies e.err, gConn[*], gProcessed[e]
+//@   ghost gProcessed[e] = true
+//@   ensures  forall(h hash.Event, old(gConn[h]) ==> gConn[h])
+//@   ensures  !result ==> e.err != nil
+//@
+//@ // monotone(..): flags and counters only grow
+//@ func (*EventsBuffer).getIncompleteEventsList
+//@   requires bufinv(buf)
+//@   ensures  fresh(result) && forall(j, 0, len(result), wok(result[j]))
+//@   loop 1 modifies res[*]
+//@   loop 1 invariant arrof(res) == arrof(atentry(res)) || arrfresh(res, _loopalloc)
+//@   loop 1 invariant 0 <= _k && _k <= len(_range) && arrfresh(res, old(_alloc)) && forall(j, 0, len(res), wok(res[j]))
+//@
+//@ // pushEvent: e is a live (not released, not processed) wrapper; on return the invariant holds again, flags only grow
+//@ func (*EventsBuffer).pushEvent
+//@   requires bufinv(buf) && wok(e)
+//@   requires [live] !e.released && !gProcessed[e]
+//@   requires forall(j, 0, len(incompleteEventsList), wok(incompleteEventsList[j]))
+//@   modifies all(event).released, all(event).err, gConn[*], gProcessed[*], gRelCnt[*], lruMap[buf.incompletes.lru][*], lruW[buf.incompletes.lru]
+//@   ensures  bufinv(buf)
+//@   ensures  [conn] forall(h hash.Event, old(gConn[h]) ==> gConn[h])
+//@   ensures  [flags] forall(w *event, (old(w.released) ==> w.released) && (old(gProcessed[w]) ==> gProcessed[w]) && gRelCnt[w] >= old(gRelCnt[w]))
+//@   ensures  [done] result ==> e.released && gProcessed[e] && gConn[e.event.ID()] == gConn[e.event.ID()]
+//@   loop 1 modifies all(event).released, all(event).err, gConn[*], gProcessed[*], gRelCnt[*], lruMap[buf.incompletes.lru][*], lruW[buf.incompletes.lru]
+//@   loop 1 invariant bufinv(buf) && 0 <= _k && _k <= len(_range) && forall(j, 0, len(_range), wok(_range[j]))
+//@   loop 1 invariant forall(h hash.Event, old(gConn[h]) ==> gConn[h])
+//@   loop 1 invariant forall(w *event, (old(w.released) ==> w.released) && (old(gProcessed[w]) ==> gProcessed[w]) && gRelCnt[w] >= old(gRelCnt[w])) && e.released && gProcessed[e]
+//@   loop 2 modifies all(event).released, all(event).err, gConn[*], gProcessed[*], gRelCnt[*], lruMap[buf.incompletes.lru][*], lruW[buf.incompletes.lru]
+//@   loop 2 invariant bufinv(buf) && 0 <= _k && _k <= len(_range)
+//@   loop 2 invariant forall(h hash.Event, old(gConn[h]) ==> gConn[h])
+//@   loop 2 invariant forall(w *event, (old(w.released) ==> w.released) && (old(gProcessed[w]) ==> gProcessed[w]) && gRelCnt[w] >= old(gRelCnt[w])) && e.released && gProcessed[e]
+//@
+//@ // spillIncompletes: afterwards the buffer is within the limits; whatever left the buffer was reported released
+//@ func (*EventsBuffer).spillIncompletes
+//@   requires bufinv(buf)
+//@   modifies all(event).released, all(event).err, gRelCnt[*], lruMap[buf.incompletes.lru][*], lruW[buf.incompletes.lru]
+//@   ensures  bufinv(buf)
+//@   ensures  [limits] len(lruMap[buf.incompletes.lru]) % 4294967296 <= limit.Num && lruW[buf.incompletes.lru] <= limit.Size
+//@   ensures  [flags] forall(w *event, (old(w.released) ==> w.released) && gRelCnt[w] >= old(gRelCnt[w]))
+//@   ensures  [spilled] forall(k interface{}, old(inbuf(buf, k)) && !inbuf(buf, k) ==> unbox(old(bufval(buf, k)), "*event").released)
+//@   ensures  [kept] forall(k interface{}, inbuf(buf, k) ==> old(inbuf(buf, k)) && bufval(buf, k) == old(bufval(buf, k)))
+//@   loop 1 modifies all(event).released, all(event).err, gRelCnt[*], lruMap[buf.incompletes.lru][*], lruW[buf.incompletes.lru]
+//@   loop 1 invariant bufinv(buf)
+//@   loop 1 invariant forall(w *event, (old(w.released) ==> w.released) && gRelCnt[w] >= old(gRelCnt[w]))
+//@   loop 1 invariant forall(k interface{}, old(inbuf(buf, k)) && !inbuf(buf, k) ==> unbox(old(bufval(buf, k)), "*event").released)
+//@   loop 1 invariant forall(k interface{}, inbuf(buf, k) ==> old(inbuf(buf, k)) && bufval(buf, k) == old(bufval(buf, k)))
+//@
+//@ func (*EventsBuffer).PushEvent
+//@   requires bufinv(buf) && de != nil
+//@   modifies all(event).released, all(event).err, gConn[*], gProcessed[*], gRelCnt[*], lruMap[buf.incompletes.lru][*], lruW[buf.incompletes.lru]
+//@   ensures  bufinv(buf)
+//@   ensures  [limits] len(lruMap[buf.incompletes.lru]) % 4294967296 <= buf.limit.Num && lruW[buf.incompletes.lru] <= buf.limit.Size
+//@   ensures  [flags] forall(w *event, (old(w.released) ==> w.released) && (old(gProcessed[w]) ==> gProcessed[w]) && gRelCnt[w] >= old(gRelCnt[w]))
+//@
+//@ // Clear: the buffer is empty and every wrapper that was buffered has been reported released
+//@ func (*EventsBuffer).Clear
+//@   requires bufinv(buf)
+//@   modifies all(event).released, all(event).err, gRelCnt[*], lruMap[buf.incompletes.lru][*], lruW[buf.incompletes.lru]
+//@   ensures  bufinv(buf) && len(lruMap[buf.incompletes.lru]) % 4294967296 == 0
+//@   ensures  [released] forall(k interface{}, old(inbuf(buf, k)) && !inbuf(buf, k) ==> unbox(old(bufval(buf, k)), "*event").released)
